@@ -1,6 +1,6 @@
 (* C11  Circle, arc and tangent constructions satisfy their defining constraints. *)
 From Coq Require Import ZArith Reals List Lra.
-From EG Require Import Num.Num Num.RNum Lib.Vec Model.Types Model.Angles Model.Circle Proofs.Circle.
+From EG Require Import Num.Num Num.RNum Lib.Vec Model.Types Model.Angles Model.Circle Proofs.Circle Proofs.ArcBox.
 Import ListNotations.
 Local Open Scope R_scope.
 
@@ -79,3 +79,11 @@ Proof.
   assert (H : sqrt ((3 - 0) * (3 - 0) + (0 - 0) * (0 - 0)) = 3) by (replace ((3 - 0) * (3 - 0) + (0 - 0) * (0 - 0)) with (3 * 3) by ring; apply sqrt_square; lra).
   rewrite H in E. lra.
 Qed.
+
+(* the cached bounding box of an arc contains every point of the arc: every circle, every start angle, every signed sweep up to a
+   full turn (the box is the hull of the two ends and of the axis points AngleInterval::contains accepts, C18) *)
+Theorem C11_arc_aabb_contains : forall (c : @circ RNum) (a0 sweep f : R), 0 <= cr c -> Rabs sweep <= 2 * PI -> 0 <= f <= 1 ->
+  let bb := @arc_aabb RNum c a0 sweep in let p := @point_at_angle RNum c (a0 + sweep * f)%R in
+  fst (fst bb) <= fst p <= fst (snd bb) /\ snd (fst bb) <= snd p <= snd (snd bb).
+Proof. exact arc_aabb_contains. Qed.
+Print Assumptions C11_arc_aabb_contains.
